@@ -277,6 +277,7 @@ def run_hypothesis(check_factory, tier, seed, max_examples, workers):
         procs.append(p)
     total = Stats()
     failure = None
+    all_fails = []
     errors = []
     for _ in procs:
         widx, status, payload, fail = q.get()
@@ -284,6 +285,8 @@ def run_hypothesis(check_factory, tier, seed, max_examples, workers):
             errors.append(payload)
         else:
             total.merge(payload)
+            if fail:
+                all_fails.append(fail)
             if fail and (failure is None or len(jdump(fail['case'])) < len(jdump(failure['case']))):
                 if failure is not None:
                     fail['candidates'] = (fail.get('candidates') or []) + (failure.get('candidates') or [])
@@ -294,6 +297,9 @@ def run_hypothesis(check_factory, tier, seed, max_examples, workers):
         p.join()
     if errors:
         raise RuntimeError('worker error:\n' + errors[0])
+    if failure is not None:
+        # what the other workers found: tried in turn when the smallest failure does not reproduce (it may have depended on what its executor had done before)
+        failure['alternatives'] = [f for f in all_fails if f is not failure]
     return total, failure
 
 
@@ -337,8 +343,19 @@ def save_replay(pid, case, msg, tag='fail'):
     return path
 
 
+def run_pre_search(check, stats, seed):
+    """the enumerated part of a check; an executor that dies inside it (sanitizer report, hang) is a failure of the case {'pre_search': True}"""
+    try:
+        return check.pre_search(stats, seed)
+    except Violation as v:
+        return {'case': {'pre_search': True, 'seed': seed}, 'msg': str(v)}
+
+
 def replay_case(check, case, times=1):
     """run one case outside Hypothesis; returns None if it passes, else the violation text"""
+    if isinstance(case, dict) and case.get('pre_search') and hasattr(check, 'pre_search'):
+        f = run_pre_search(check, Stats(), case.get('seed', 0))
+        return None if f is None else f['msg']
     ex = check.make_executor() if hasattr(check, 'make_executor') else Executor()
     try:
         for _ in range(times):
@@ -415,7 +432,7 @@ def main_check(check_factory, argv=None):
         workers = a.workers or check.workers
         examples = a.examples or check.examples
         if hasattr(check, 'pre_search'):
-            failure = check.pre_search(stats, seed)
+            failure = run_pre_search(check, stats, seed)
         if failure is None:
             stats2, failure = run_hypothesis(check_factory, tier, seed, examples, workers)
             stats.merge(stats2)
@@ -442,9 +459,13 @@ def main_check(check_factory, argv=None):
                 if confirm is not None:
                     break
         else:
-            for _ in range(3):
-                confirm = replay_case(check_factory(tier), failure['case'])
-                if confirm is None:
+            for cand in [failure] + sorted(failure.get('alternatives') or [], key=lambda f: len(jdump(f['case']))):
+                for _ in range(3):
+                    confirm = replay_case(check_factory(tier), cand['case'])
+                    if confirm is None:
+                        break
+                if confirm is not None:
+                    failure = dict(failure, case=cand['case'], msg=cand['msg'])
                     break
         if confirm is None and not failure.get('path'):
             print('NOTE: failing case did not reproduce on replay (not reported): %s' % failure['msg'][:5000])
